@@ -125,6 +125,18 @@ fn inputs(ctx: &Ctx) -> Vec<Input> {
     }
     // enough rows that batch size 1 yields thousands of batches in one phase (more than any plausible bounded queue holds)
     out.push(Input { name: "six-thousand-rows-for-batch-size-1", files: vec![uniq(6000, &mut rng)], same_path_twice: false, terminators: 0 });
+    {
+        // short keys that differ only by trailing NUL bytes (lines are byte strings; 0x00 is a byte like any other), all in one batch
+        let mut rows: Vec<(String, u64)> = vec![];
+        for (i, base) in ["ab", "b", "abcdefg", "q7"].iter().enumerate() {
+            rows.push((format!("{}\0\0", base), 30 + i as u64));
+            rows.push((format!("{}\0", base), 20 + i as u64));
+            rows.push((base.to_string(), 10 + i as u64));
+            rows.push((format!("{}\0a", base), 5));
+        }
+        rows.extend(uniq(10, &mut rng));
+        out.push(Input { name: "keys-differing-only-by-trailing-nul-bytes", files: vec![rows], same_path_twice: false, terminators: 0 });
+    }
     out.push(Input { name: "one-row", files: vec![vec![("solo".to_string(), 77)]], same_path_twice: false, terminators: 0 });
     out.push(Input { name: "empty-input", files: vec![vec![]], same_path_twice: false, terminators: 0 });
     {
@@ -195,9 +207,13 @@ struct RunCfg {
     delay_seed: Option<u64>,
     /// the destination already exists and is much longer than the result
     stale_output: bool,
+    /// the scratch directory ($TMPDIR) lies on another file system than the destination (if this machine has one)
+    tmp_elsewhere: bool,
 }
 
 struct Outcome {
+    /// $TMPDIR really was on another file system in this run
+    tmp_was_elsewhere: bool,
     status: Option<i32>,
     /// every thread asleep and not a single CPU tick consumed for 8 consecutive seconds (logical quiescence, not a deadline)
     deadlocked: bool,
@@ -264,7 +280,21 @@ fn run_fst(bin: &Path, dir: &Path, inp: &Input, cfg: &RunCfg, extra_env: &[(Stri
         }
         _ => {}
     }
-    cmd.env("TMPDIR", dir.join("tmp")).env("FST_VERIF_TRACE", &trace).stdin(Stdio::null()).stdout(Stdio::null()).stderr(Stdio::piped());
+    // the scratch directory: next to the destination, or - when asked for and this machine has one - on another file system
+    // (a tmpfs), so that moving the result into place has to cross a file system boundary
+    let mut tmpdir = dir.join("tmp");
+    let mut elsewhere: Option<PathBuf> = None;
+    if cfg.tmp_elsewhere {
+        if let Some(other) = other_filesystem_dir(dir) {
+            let d = other.join(format!("fstmon-c19-{}-{}", std::process::id(), dir.file_name().and_then(|n| n.to_str()).unwrap_or("t")));
+            let _ = std::fs::remove_dir_all(&d);
+            if std::fs::create_dir_all(&d).is_ok() {
+                tmpdir = d.clone();
+                elsewhere = Some(d);
+            }
+        }
+    }
+    cmd.env("TMPDIR", &tmpdir).env("FST_VERIF_TRACE", &trace).stdin(Stdio::null()).stdout(Stdio::null()).stderr(Stdio::piped());
     if let Some(s) = cfg.delay_seed {
         cmd.env("FST_VERIF_SEED", s.to_string());
     } else {
@@ -276,7 +306,7 @@ fn run_fst(bin: &Path, dir: &Path, inp: &Input, cfg: &RunCfg, extra_env: &[(Stri
     let start = Instant::now();
     let mut child = match cmd.spawn() {
         Ok(c) => c,
-        Err(e) => return Outcome { status: None, deadlocked: false, timed_out: true, stderr: format!("spawn failed: {}", e), output: None, trace: String::new() },
+        Err(e) => return Outcome { status: None, deadlocked: false, timed_out: true, stderr: format!("spawn failed: {}", e), output: None, trace: String::new(), tmp_was_elsewhere: false },
     };
     let limit = Duration::from_secs(if wrapper.is_empty() { 120 } else { 900 });
     let mut timed_out = false;
@@ -324,7 +354,30 @@ fn run_fst(bin: &Path, dir: &Path, inp: &Input, cfg: &RunCfg, extra_env: &[(Stri
         use std::io::Read;
         let _ = e.read_to_string(&mut stderr);
     }
-    Outcome { status, deadlocked, timed_out, stderr, output: std::fs::read(&out).ok(), trace: std::fs::read_to_string(&trace).unwrap_or_default() }
+    let tmp_was_elsewhere = elsewhere.is_some();
+    if let Some(d) = elsewhere {
+        let _ = std::fs::remove_dir_all(&d);
+    }
+    Outcome { status, deadlocked, timed_out, stderr, output: std::fs::read(&out).ok(), trace: std::fs::read_to_string(&trace).unwrap_or_default(), tmp_was_elsewhere }
+}
+
+/// a writable directory on a different file system than `here` (device numbers differ), if this machine has one
+fn other_filesystem_dir(here: &Path) -> Option<PathBuf> {
+    use std::os::unix::fs::MetadataExt;
+    let dev = std::fs::metadata(here).ok()?.dev();
+    for cand in ["/dev/shm", "/run/shm", "/run/user/0"].iter() {
+        let p = Path::new(cand);
+        if let Ok(m) = std::fs::metadata(p) {
+            if m.is_dir() && m.dev() != dev {
+                let probe = p.join(format!(".fstmon-probe-{}", std::process::id()));
+                if std::fs::write(&probe, b"x").is_ok() {
+                    let _ = std::fs::remove_file(&probe);
+                    return Some(p.to_path_buf());
+                }
+            }
+        }
+    }
+    None
 }
 
 /// (CPU ticks consumed by the process so far, every thread is in state S) from /proc
@@ -546,6 +599,9 @@ fn judge(inp: &Input, cfg: &RunCfg, o: &Outcome, ev: &mut Ev, trees: &mut HashSe
     if cfg.stale_output {
         ev.count("runs:overwriting-a-longer-existing-output");
     }
+    if o.tmp_was_elsewhere {
+        ev.count("runs:scratch-directory-on-another-file-system");
+    }
     if o.status != Some(0) {
         ev.violate("exit-status", format!("fst exited with {:?}: {}", o.status, o.stderr.lines().last().unwrap_or("")), descr());
         return;
@@ -659,20 +715,20 @@ pub fn run(ctx: &Ctx) -> i32 {
                     if big && *b < 7 {
                         continue;
                     }
-                    plan.push((ii, RunCfg { batch: *b, fd: fds[(ii + mi + bi) % 3], threads: ths[(ii + bi) % 4], mode: *m, delay_seed: Some(rng.next() % 1_000_000), stale_output: (ii + mi + bi) % 4 == 0 }));
+                    plan.push((ii, RunCfg { batch: *b, fd: fds[(ii + mi + bi) % 3], threads: ths[(ii + bi) % 4], mode: *m, delay_seed: Some(rng.next() % 1_000_000), stale_output: (ii + mi + bi) % 4 == 0, tmp_elsewhere: (ii + mi + bi) % 3 == 1 }));
                 }
             }
         }
         // thousands of batches in one phase
         if let Some(ii) = ins.iter().position(|i| i.name.starts_with("six-thousand-rows")) {
-            plan.push((ii, RunCfg { batch: 1, fd: 15, threads: 4, mode: Mode::Set, delay_seed: None, stale_output: false }));
-            plan.push((ii, RunCfg { batch: 1, fd: 3, threads: 2, mode: Mode::Sum, delay_seed: None, stale_output: true }));
+            plan.push((ii, RunCfg { batch: 1, fd: 15, threads: 4, mode: Mode::Set, delay_seed: None, stale_output: false, tmp_elsewhere: false }));
+            plan.push((ii, RunCfg { batch: 1, fd: 3, threads: 2, mode: Mode::Sum, delay_seed: None, stale_output: true, tmp_elsewhere: false }));
         }
         while plan.len() < nruns {
             let ii = rng.usize(ins.len());
             let big = ins[ii].files.iter().map(|f| f.len()).sum::<usize>() > 1000;
             let b = if big { *rng.pick(&[7usize, 50, 1000, 1_000_000]) } else { *rng.pick(&batches) };
-            plan.push((ii, RunCfg { batch: b, fd: *rng.pick(&fds), threads: *rng.pick(&ths), mode: *rng.pick(&modes), delay_seed: if rng.chance(1, 8) { None } else { Some(rng.next() % 1_000_000) }, stale_output: false }));
+            plan.push((ii, RunCfg { batch: b, fd: *rng.pick(&fds), threads: *rng.pick(&ths), mode: *rng.pick(&modes), delay_seed: if rng.chance(1, 8) { None } else { Some(rng.next() % 1_000_000) }, stale_output: false, tmp_elsewhere: false }));
         }
     }
     let nplan = plan.len();
@@ -750,7 +806,7 @@ pub fn run(ctx: &Ctx) -> i32 {
         let ii = 1; // no-repeats-500
         let mut local = HashSet::new();
         for s in 0..ctx.tier.pick(24, 200) {
-            let cfg = RunCfg { batch: 7, fd: 3, threads: 5, mode: Mode::Sum, delay_seed: Some(ctx.seed * 1000 + s), stale_output: false };
+            let cfg = RunCfg { batch: 7, fd: 3, threads: 5, mode: Mode::Sum, delay_seed: Some(ctx.seed * 1000 + s), stale_output: false, tmp_elsewhere: false };
             let o = run_fst(&bin, &scratch.join("seeds"), &ins[ii], &cfg, &[], &[]);
             let (tree, _, _, _, _) = merge_tree(&o.trace);
             local.insert(tree);
@@ -771,7 +827,7 @@ pub fn run(ctx: &Ctx) -> i32 {
         let n = ctx.tier.pick(12, 200);
         for r in 0..n {
             let ii = rng.usize(ins.len() - 1);
-            let cfg = RunCfg { batch: *rng.pick(&[1usize, 2, 3, 7]), fd: *rng.pick(&[2usize, 3]), threads: *rng.pick(&[2usize, 5, 16]), mode: *rng.pick(&[Mode::Set, Mode::Sum, Mode::Min]), delay_seed: Some(r as u64), stale_output: false };
+            let cfg = RunCfg { batch: *rng.pick(&[1usize, 2, 3, 7]), fd: *rng.pick(&[2usize, 3]), threads: *rng.pick(&[2usize, 5, 16]), mode: *rng.pick(&[Mode::Set, Mode::Sum, Mode::Min]), delay_seed: Some(r as u64), stale_output: false, tmp_elsewhere: false };
             let env = vec![("TSAN_OPTIONS".to_string(), format!("halt_on_error=0 exitcode=0 log_path={}/tsan", logdir.display()))];
             let o = run_fst(&tsan, &dir, &ins[ii], &cfg, &env, &[]);
             ev.count("tsan:runs");
@@ -790,7 +846,7 @@ pub fn run(ctx: &Ctx) -> i32 {
         let mut rng = Rng::new(ctx.seed, 0x3e3c);
         for r in 0..ctx.tier.pick(2, 30) {
             let ii = [0usize, 2, 3, 4, 7][r % 5];
-            let cfg = RunCfg { batch: *rng.pick(&[2usize, 7]), fd: 2, threads: 2, mode: *rng.pick(&[Mode::Set, Mode::Sum, Mode::Max]), delay_seed: None, stale_output: false };
+            let cfg = RunCfg { batch: *rng.pick(&[2usize, 7]), fd: 2, threads: 2, mode: *rng.pick(&[Mode::Set, Mode::Sum, Mode::Max]), delay_seed: None, stale_output: false, tmp_elsewhere: false };
             let wrapper: Vec<String> = vec!["valgrind".into(), "--tool=memcheck".into(), "--error-exitcode=0".into(), "-q".into(), format!("--log-file={}/memcheck.%p", logdir.display())];
             let o = run_fst(&bin, &dir, &ins[ii], &cfg, &[], &wrapper);
             ev.count("memcheck:runs");
